@@ -1058,8 +1058,9 @@ Proof. vm_compute. reflexivity. Qed.
 (* ------------------------------------------------------------------ eups list --dependencies *)
 
 (* [cli_lines fuel w top topological check f] are the products eups list --dependencies [--topological]
-   [--checkCycles] [--depth f] prints, in order (app.printProducts).  Every line is the product itself or a
-   product of the listing that passes the depth test ... *)
+   [--checkCycles] [--depth f] prints, in order (app.printProducts with the repair of
+   proposed_fixes/C13-list-prints-every-version: a product is printed once, keyed by name and version).
+   Every line is the product itself or a product of the listing that passes the depth test ... *)
 Theorem cli_listing_sound fuel w top topological f L :
   cli_lines fuel w top topological false f = Ok L ->
   exists l, dependent_products fuel w top topological = Ok l /\
@@ -1069,35 +1070,48 @@ Proof.
   intros C. destruct (cli_lines_inv _ _ _ _ _ _ C) as [l [D ->]]. exists l. split; [exact D|].
   intros q I. apply in_app_iff in I as [I | I].
   - destruct (depth_ok f 0); [|destruct I]. destruct I as [<- | []]. left. auto.
-  - right. apply in_map_iff in I as [x [E I]]. unfold cli_entries in I. apply first_of_name_sub in I.
+  - right. apply in_map_iff in I as [x [E I]]. unfold cli_entries, cli_entries_with in I. apply first_of_product_sub in I.
     apply filter_In in I as [I K]. exists x. auto.
 Qed.
 Print Assumptions cli_listing_sound.
 
-(* ... without --depth every product NAME of the listing is printed (the command keys its table of printed
-   products by the name: app.py 157-158) ... *)
-Theorem cli_listing_names_complete fuel w top topological L :
+(* ... and without --depth the lines are exactly the product and the products reachable through the table files -
+   in both modes, whatever the closure holds (two versions of one name, stubs, cycles) *)
+Theorem cli_listing_is_the_closure fuel w top topological L :
+  length w < fuel -> wf_world w ->
   cli_lines fuel w top topological false DAll = Ok L ->
-  exists l, dependent_products fuel w top topological = Ok l /\ In top L /\
-    forall q, In q (map enode l) -> exists q', In q' L /\ nname q' = nname q.
+  forall q, In q L <-> q = top \/ reach_plus w top q.
 Proof.
-  intros C. destruct (cli_lines_inv _ _ _ _ _ _ C) as [l [D ->]]. exists l. split; [exact D|]. cbn [depth_ok].
-  split; [left; reflexivity|]. intros q I. apply in_map_iff in I as [x [<- I]].
-  unfold cli_entries. rewrite filter_all.
-  destruct (first_of_name_names l [] x I) as [[] | [x' [I' E]]].
-  exists (enode x'). split; [right; apply in_map, I' | exact E].
+  intros Hf Hwf C. destruct (cli_lines_inv _ _ _ _ _ _ C) as [l [D ->]]. cbn [depth_ok].
+  assert (HL : forall q, In q (map enode l) <-> q <> top /\ reach_plus w top q).
+  { destruct topological.
+    - apply (walk_complete_topological w top fuel l Hf D).
+    - destruct (walk_complete w top fuel Hf) as [l' [D' H']]. rewrite D in D'. inversion D'. subst l'. exact H'. }
+  intros q. split.
+  - intros [<- | I]; [left; reflexivity|]. right. apply in_map_iff in I as [x [<- I]].
+    unfold cli_entries, cli_entries_with in I. apply first_of_product_sub in I. rewrite filter_all in I.
+    apply (HL (enode x)). apply in_map, I.
+  - intros [-> | R]; [left; reflexivity|].
+    destruct (node_eq_dec q top) as [-> | Ne]; [left; reflexivity|]. right.
+    assert (I : In q (map enode l)) by (apply HL; auto). apply in_map_iff in I as [x [<- I]].
+    unfold cli_entries, cli_entries_with. rewrite filter_all.
+    destruct (first_of_product_keys l [] x I) as [[] | [x' [I' E]]].
+    assert (Rx' : reach_plus w top (enode x')).
+    { apply (HL (enode x')). apply in_map. eapply first_of_product_sub, I'. }
+    rewrite <- (listed_key_inj w top _ _ Hwf Rx' R E). apply in_map, I'.
 Qed.
-Print Assumptions cli_listing_names_complete.
+Print Assumptions cli_listing_is_the_closure.
 
-(* ... and when the listing holds one product per name the lines are EXACTLY the product followed by the
-   listing, in the order of the listing, restricted to the depths that pass the test *)
-Theorem cli_listing_exact fuel w top topological f l :
-  dependent_products fuel w top topological = Ok l ->
-  NoDup (map (fun x => nname (enode x)) l) ->
-  cli_lines fuel w top topological false f
+(* with --topological the lines are EXACTLY the product followed by the listing, in the order of the listing,
+   restricted to the depths that pass the test (the topological listing names every product once already) *)
+Theorem cli_listing_exact fuel w top f l :
+  length w < fuel -> wf_world w ->
+  dependent_products fuel w top true = Ok l ->
+  cli_lines fuel w top true false f
   = Ok ((if depth_ok f 0 then [top] else []) ++ map enode (filter (fun x => depth_ok f (edepth x)) l)).
 Proof.
-  intros D Hn. unfold cli_lines. rewrite D. cbn [andb]. rewrite (cli_entries_exact f l Hn). reflexivity.
+  intros Hf Hwf D. unfold cli_lines, cli_lines_with. rewrite D. cbn [andb].
+  fold (cli_entries f l). rewrite (cli_entries_exact f l (listing_keys_nodup fuel w top l Hf Hwf D)). reflexivity.
 Qed.
 Print Assumptions cli_listing_exact.
 
@@ -1106,14 +1120,13 @@ Print Assumptions cli_listing_exact.
 Corollary cli_topological_listing_complete_and_ordered fuel w top l :
   length w < fuel -> wf_world w ->
   dependent_products fuel w top true = Ok l ->
-  NoDup (map (fun x => nname (enode x)) l) ->
   cli_lines fuel w top true false DAll = Ok (top :: map enode l) /\
   (forall q, In q (map enode l) <-> q <> top /\ reach_plus w top q) /\
   NoDup (map enode l) /\
   (forall l1 y l2 x, l = l1 ++ y :: l2 -> In x l2 -> ~ reach_plus w (enode y) (enode x) -> ~ step w (enode x) (enode y)).
 Proof.
-  intros Hf Hwf D Hn. split.
-  - rewrite (cli_listing_exact fuel w top true DAll l D Hn). cbn [depth_ok app]. rewrite filter_all. reflexivity.
+  intros Hf Hwf D. split.
+  - rewrite (cli_listing_exact fuel w top DAll l Hf Hwf D). cbn [depth_ok app]. rewrite filter_all. reflexivity.
   - destruct (walk_complete_topological w top fuel l Hf D) as [H1 H2]. split; [exact H1|]. split; [exact H2|].
     intros l1 y l2 x El Ix Nc. exact (listed_after_its_users w top fuel l l1 y l2 x Hf Hwf D El Ix Nc).
 Qed.
@@ -1124,19 +1137,22 @@ Theorem cli_cycle_refused fuel w top topological f g :
   length w < fuel -> wf_world w -> topo_graph fuel w top = Ok g -> proper_cycle w top ->
   cli_lines fuel w top topological true f = Err Refused.
 Proof.
-  intros Hf Hwf Hg Hc. unfold cli_lines. rewrite Hg. rewrite (cycle_reported_exactly w top fuel g Hf Hwf Hg Hc). reflexivity.
+  intros Hf Hwf Hg Hc. unfold cli_lines, cli_lines_with. rewrite Hg.
+  rewrite (cycle_reported_exactly w top fuel g Hf Hwf Hg Hc). reflexivity.
 Qed.
 Print Assumptions cli_cycle_refused.
 
-(* The full statement - the printed lines are the whole listing - is FALSE of the command when the closure holds
-   two products of one name: of p3 3 and p3 1 only the first is printed (the API lists both:
-   build_order_two_versions_inhabited).  The API and the manifest are complete there; the command line is not. *)
-Example cli_one_line_per_name_refuted :
-  cli_lines 7 w_d16 (nd "p5" "1") true false DAll
+(* The pinned tree keyed its table of printed products by the NAME: of p3 3 and p3 1, both reachable and both in
+   the API listing (build_order_two_versions_inhabited), only the first was printed - cli_listing_is_the_closure is
+   false of it.  The repaired command prints both. *)
+Example cli_one_line_per_name_refuted_pinned :
+  cli_lines_pinned 7 w_d16 (nd "p5" "1") true false DAll
   = Ok [nd "p5" "1"; nd "p3" "3"; nd "p4" "2"; nd "p2" "3"] /\
-  reach_plus w_d16 (nd "p5" "1") (nd "p3" "1").
+  reach_plus w_d16 (nd "p5" "1") (nd "p3" "1") /\
+  cli_lines 7 w_d16 (nd "p5" "1") true false DAll
+  = Ok [nd "p5" "1"; nd "p3" "3"; nd "p4" "2"; nd "p2" "3"; nd "p3" "1"].
 Proof.
-  split; [vm_compute; reflexivity|].
+  split; [vm_compute; reflexivity|]. split; [|vm_compute; reflexivity].
   eapply rp_more; [eexists _, (ed "p4" (Some "2") (Some "2") false); split; [reflexivity|]; split; [right; left; reflexivity | reflexivity]|].
   apply rp_one. eexists _, (ed "p3" (Some "1") (Some "1") false). split; [reflexivity|]. split; [left; reflexivity | reflexivity].
 Qed.
